@@ -676,6 +676,10 @@ Definition new_frame (g : gkind) (st : list (str * list bitem)) (t : str * list 
   {| pushed := []; locals := []; gl := g; counters := []; macros := []; stacks := st;
      ctmpl := t; disabled := dis |}.
 
+Definition on_head_frame_macros (ms : list (str * macro)) (fr : frame) : frame :=
+  {| pushed := pushed fr; locals := locals fr; gl := gl fr; counters := counters fr; macros := ms;
+     stacks := stacks fr; ctmpl := ctmpl fr; disabled := disabled fr |}.
+
 Definition head_frame : M frame := fun s =>
   match cx s with
   | fr :: _ => ([], s, Done fr)
@@ -950,8 +954,10 @@ Section Interp.
                 let '(bound, exk) := bind_keywords b0 [] kw in
                 forM exa ev >>> forM exk (fun a => ev (snd a)) >>>
                 forM bound (fun p => forM (opt_list (snd p)) ev) >>>
-                isolated (new_frame (GNs (plain (args_s :: kwargs_s :: map fst bound))) []
-                                    (ctmpl fr) [include_s; block_s])
+                (* the body gets a copy of the caller's macro registry *)
+                isolated (on_head_frame_macros (macros fr)
+                            (new_frame (GNs (plain (args_s :: kwargs_s :: map fst bound))) []
+                                       (ctmpl fr) [include_s; block_s]))
                          (render_node f (m_tn m) (m_body m))
             end
         | NInclude _ name _ var alias args =>
@@ -980,7 +986,8 @@ Section Interp.
                  ev v >>> mdo k <- pop ;;;
                  let key := match alias with Some a => a | None => rt_stem name end in
                  if loop && negb (N.eqb k 0)
-                 then isolated (mk [forloop_s; key]) (repeatM (N.to_nat k - 1) (rtemplate name nodes))
+                 then (* every item is rendered in an isolated context of its own *)
+                      repeatM (N.to_nat k - 1) (isolated (mk [forloop_s; key]) (rtemplate name nodes))
                  else isolated (mk [key]) (rtemplate name nodes)
              end)
         | NExtends _ _ =>
